@@ -29,6 +29,7 @@ func init() {
 			{ID: "C09.5", Desc: "synthesised Date is valid UTC (a wrong Date makes fresh entries look stale)", Run: func(c *Ctx) { ruleDateRepair(c, "C09.5") }, MinSites: 1},
 			{ID: "C09.10", Desc: "equivalent spellings with percent-encoded dot segments share the key (decode before dot-segment removal)", Run: func(c *Ctx) { ruleDotAfterDecode(c, "C09.10") }, MinSites: 1},
 			{ID: "C09.11", Desc: "tables of header field names are keyed by canonical names (TE is looked up as Te)", Run: func(c *Ctx) { ruleHeaderTablesCanonical(c, "C09.11") }, MinSites: 1},
+			{ID: "C09.12", Desc: "a lifetime too large to represent saturates instead of counting as absent (else the response is never fresh)", Run: func(c *Ctx) { ruleSaturation(c, "C09.12") }, MinSites: 2},
 		},
 	})
 }
